@@ -144,6 +144,78 @@ class PtrLV:
         self.lv = lv
 
 
+class Poly:
+    """a float quantity as an exact polynomial over named symbolic inputs (rational coefficients): what a positioning function computes
+    from its inputs, whatever their values.  Comparisons of a non-constant polynomial are explored both ways (memoised per run)."""
+    __slots__ = ('t',)
+
+    def __init__(self, t=None):
+        self.t = {k: v for k, v in (t or {}).items() if v}
+
+    @staticmethod
+    def sym(name):
+        from fractions import Fraction
+        return Poly({(name,): Fraction(1)})
+
+    @staticmethod
+    def of(x):
+        from fractions import Fraction
+        if isinstance(x, Poly):
+            return x
+        return Poly({(): Fraction(x)})
+
+    def __add__(self, o):
+        o = Poly.of(o)
+        t = dict(self.t)
+        for k, v in o.t.items():
+            t[k] = t.get(k, 0) + v
+        return Poly(t)
+
+    def __neg__(self):
+        return Poly({k: -v for k, v in self.t.items()})
+
+    def __sub__(self, o):
+        return self + (-Poly.of(o))
+
+    def __mul__(self, o):
+        o = Poly.of(o)
+        t = {}
+        for k1, v1 in self.t.items():
+            for k2, v2 in o.t.items():
+                k = tuple(sorted(k1 + k2))
+                t[k] = t.get(k, 0) + v1 * v2
+        return Poly(t)
+
+    def const(self):
+        """the number, when the polynomial is one"""
+        if not self.t:
+            return 0
+        if list(self.t) == [()]:
+            return self.t[()]
+        return None
+
+    def key(self):
+        return tuple(sorted(self.t.items()))
+
+    def __eq__(self, o):
+        return isinstance(o, (Poly, int, float)) and self.key() == Poly.of(o).key()
+
+    def __ne__(self, o):
+        return not self == o
+
+    def __hash__(self):
+        return hash(self.key())
+
+    def __repr__(self):
+        if not self.t:
+            return '0'
+        out = []
+        for k, v in sorted(self.t.items()):
+            c = ('%s' % v) if v.denominator != 1 else '%d' % v
+            out.append((c + '*' if (c != '1' or not k) and k else (c if not k else '')) + '*'.join(k))
+        return ' + '.join(out).replace('+ -', '- ')
+
+
 class Fnref:
     def __init__(self, e):
         self.e = e
@@ -248,7 +320,32 @@ class Interp:
             a = a.v
         if isinstance(b, Lz):
             b = b.v
-        if isinstance(a, Co) and isinstance(b, Co):
+        if isinstance(a, Poly) or isinstance(b, Poly):
+            if not isinstance(a, (Poly, int, float)) or not isinstance(b, (Poly, int, float)):
+                self.broken(fn, e, 'comparison %s of %s and %s' % (op, type(a).__name__, type(b).__name__))
+            d = Poly.of(a) - Poly.of(b)
+            x = d.const()
+            if x is None:
+                # a factor known to be positive (the font scale) does not change the sign: s*p and p are the same question
+                for pa in getattr(self, 'poly_positive', ()):
+                    while d.t and all(pa in k for k in d.t):
+                        t2 = {}
+                        for k, v in d.t.items():
+                            kk = list(k)
+                            kk.remove(pa)
+                            t2[tuple(kk)] = v
+                        d = Poly(t2)
+                x = d.const()
+            if x is None:
+                # sign of a non-constant polynomial: both ways (equality has measure zero), the same answer every time in one run
+                memo = self.__dict__.setdefault('poly_sign', {})
+                kk = d.key()
+                if kk not in memo:
+                    nk = (-d).key()
+                    memo[kk] = -memo[nk] if nk in memo else (1, -1)[self.ch.choose(2)]
+                x = memo[kk]
+            y = 0
+        elif isinstance(a, Co) and isinstance(b, Co):
             x, y = a.v, b.v
         elif isinstance(a, Df) and isinstance(b, (int, float)) and b == 0:
             x, y = a.v, 0
@@ -343,6 +440,18 @@ class Interp:
                 if z.v is None:
                     z.v = z.cands[self.ch.choose(len(z.cands))]
                 return z.v & other
+        if isinstance(a, Poly) or isinstance(b, Poly):
+            if isinstance(a, (Poly, int, float)) and isinstance(b, (Poly, int, float)):
+                if op == '+':
+                    return Poly.of(a) + b
+                if op == '-':
+                    return Poly.of(a) - b
+                if op == '*':
+                    return Poly.of(a) * b
+                if op == '/' and not isinstance(b, Poly) and b != 0:
+                    from fractions import Fraction
+                    return Poly.of(a) * (Fraction(1) / Fraction(b))
+            self.broken(fn, e, 'operator %s on %s and %s: not a polynomial of the symbolic inputs' % (op, type(a).__name__, type(b).__name__))
         if isinstance(a, It) and isinstance(b, int) and op in ('+', '-'):
             return It(a.vec, a.idx + (b if op == '+' else -b), a.gen)
         if isinstance(a, It) and isinstance(b, It) and op == '-':
@@ -566,10 +675,12 @@ class Interp:
                             s -= (1 << tt[0])            # two's-complement reinterpretation (size_t difference stored in a ptrdiff_t)
                 val[i] = s
             elif ck in ('IntegralToFloating',):
-                val[i] = s if isinstance(s, (int, float)) else Op()
+                val[i] = s if isinstance(s, (int, float, Poly)) else Op()
             elif ck in ('FloatingToIntegral', 'FloatingToBoolean'):
                 if isinstance(s, (Co, Df)):
                     self.broken(fn, e, 'a coordinate is converted to an integer')
+                if isinstance(s, Poly):
+                    self.broken(fn, e, 'a symbolic float is converted to an integer: not a polynomial')
                 val[i] = s if isinstance(s, (int, float)) else Op()
             elif ck == 'PointerToBoolean':
                 val[i] = (s.rec is not None) if isinstance(s, Ptr) else True      # It, PtrLV: non-null
@@ -641,6 +752,8 @@ class Interp:
             if op == '-':
                 s = self.rv(s)
                 if isinstance(s, (int, float)):
+                    val[i] = -s
+                elif isinstance(s, Poly):
                     val[i] = -s
                 elif isinstance(s, (Co, Df)):
                     self.broken(fn, e, 'negation of a coordinate')
